@@ -16,7 +16,7 @@ func init() {
 		Assume: []string{"generations are opaque ordered tokens: only freshness, order and agreement between reporting places are checked", "no JSON null is sent in patches"},
 		Run:    runC10,
 	})
-	expectedProbes["C10"] = []string{"c10.rewrite_same_name", "c10.patch_readonly_fields", "c10.patch_zero_fields", "c10.delete_recreate", "c10.clock_stalled", "c10.clock_back", "c10.listing_agrees"}
+	expectedProbes["C10"] = []string{"c10.rewrite_same_name", "c10.patch_readonly_fields", "c10.patch_zero_fields", "c10.delete_recreate", "c10.clock_stalled", "c10.clock_back", "c10.listing_agrees", "c10.copy_across_buckets"}
 }
 
 func runC10(r *Run) {
@@ -128,6 +128,12 @@ func runC10(r *Run) {
 			case 4:
 				src := names[d.n(3)]
 				writes[name]++
+				if d.n(3) == 2 {
+					// across buckets, to the same name: the response must describe the
+					// destination (its fresh generation, metageneration 1), not the source
+					r.Probe("c10.copy_across_buckets")
+					return gOp{Kind: "Copy", Bucket: "bkt", Name: src, DstB: "other-bucket", DstN: src}
+				}
 				return gOp{Kind: "Copy", Bucket: "bkt", Name: src, DstB: "bkt", DstN: name}
 			case 5:
 				// a failing request
